@@ -210,6 +210,33 @@ theorem from_stat_roundtrip (v : Nat) (prev : Bytes) (c m dev ino mode uid gid s
   obtain ⟨b, hw, hr⟩ := entry_roundtrip v prev _ hwf
   exact ⟨b, hw, fun rest => ⟨_, hr rest, rfl, rfl⟩⟩
 
+/-! ### The (sec, nsec) of a nanosecond counter (`index_entry_from_stat`) -/
+
+/-- `timespecOfNs ns` is **the unique** `(s, n)` with `0 ≤ n < 10^9` and `s·10^9 + n = ns` — for every
+integer, negative ones (pre-1970) included.  So the whole second comes from the nanosecond counter
+alone; no float view of the same timestamp (which rounds *up* within ~120 ns below a second at today's
+dates) has a say. -/
+theorem timespec_unique (ns s n : Int) :
+    (0 ≤ n ∧ n < 1000000000 ∧ s * 1000000000 + n = ns) ↔ (s, n) = timespecOfNs ns := by
+  unfold timespecOfNs
+  constructor
+  · rintro ⟨h0, h1, h2⟩
+    have : s = ns / 1000000000 ∧ n = ns % 1000000000 := by omega
+    rw [this.1, this.2]
+  · intro h
+    simp only [Prod.mk.injEq] at h
+    omega
+
+/-- Floor, not truncation: one nanosecond before the epoch is `(-1, 999999999)`, whereas truncating
+gives `(0, -1)`, which is no timespec; and the instant `-1.5 s` is `(-2, 500000000)`, stored as
+`(2^32 - 2, 500000000)`. -/
+theorem timespec_floor_not_trunc_counterexample :
+    timespecOfNs (-1) = (-1, 999999999) ∧ truncTimespecOfNs (-1) = (0, -1) ∧
+    timespecOfNs (-1500000000) = (-2, 500000000) ∧ truncTimespecOfNs (-1500000000) = (-1, -500000000) ∧
+    timeWords (timespecOfNs (-1500000000)) = (4294967294, 500000000) := by decide
+
+example : timespecOfNs 1790000000999999900 = (1790000000, 999999900) := by decide
+
 /-! ## 5. The entry loop and the whole file -/
 
 /-- **Index round trip.**
